@@ -285,9 +285,9 @@ fn specs(thorough: bool) -> Vec<Spec> {
     let filters = ["identity", "keep-1", "keep-0-2", "reverse", "empty", "foreign", "err"];
     let strats = ["pick-0", "pick-1", "pick-2", "none", "foreign", "err"];
     let lats: Vec<[u64; 3]> = if thorough {
-        vec![[0, 0, 0], [17_000, 0, 0], [0, 17_000, 0], [0, 0, 17_000], [17_000, 17_000, 17_000], [1, 1, 1]]
+        vec![[0, 0, 0], [17_000, 0, 0], [0, 17_000, 0], [0, 0, 17_000], [17_000, 17_000, 17_000], [1, 1, 1], [12_000, 0, 0], [5_000, 5_000, 5_500]]
     } else {
-        vec![[0, 0, 0], [17_000, 0, 17_000]]
+        vec![[0, 0, 0], [17_000, 0, 17_000], [12_000, 0, 3_000]]
     };
     for d in discs {
         for f in filters {
